@@ -28,7 +28,7 @@ type C11Case struct {
 	Method    string          `json:"method"`
 	Params    json.RawMessage `json:"params,omitempty"`
 	Flags     uint64          `json:"flags"`
-	Reply     Blob            `json:"reply"`    // what the server sends after reading the request (whole stream)
+	Reply     Blob            `json:"reply"` // what the server sends after reading the request (whole stream)
 	Cuts      []int           `json:"cuts,omitempty"`
 	AbortAt   int             `json:"abort_at"` // -1: the server sends everything, then closes
 	Receives  int             `json:"receives"`
